@@ -176,6 +176,18 @@ func (c *VCtx) store(fr *Frame, st *State, p Val, v Val, pos token.Pos) {
 			c.publish(v)
 		} else if l.Kind == "cell" && !strings.HasPrefix(l.Base.S, "cell!") {
 			c.publish(v)
+		} else if l.Base != nil && !c.isPublished(l.Base) {
+			// stored into something only this invocation can reach: becomes reachable together with it
+			if c.storedIn == nil {
+				c.storedIn = map[string][]Val{}
+			}
+			root := l.Base
+			if info := c.embedded[root.S]; info != nil && len(info.chain) > 0 {
+				root = info.chain[0].term
+			}
+			c.storedIn[root.S] = append(c.storedIn[root.S], v)
+		} else if l.Base != nil {
+			c.publish(v)
 		}
 		switch l.Kind {
 		case "field", "cell":
@@ -291,6 +303,9 @@ func (c *VCtx) freshRef(st *State, prefix string) *Term {
 	c.setHeap(st, "G:alloc", Store(a, r, True))
 	if c.top != nil {
 		c.freshGhost(st, r)
+	}
+	if prefix == "new" {
+		c.allFresh = append(c.allFresh, r)
 	}
 	return r
 }
@@ -732,6 +747,10 @@ func (c *VCtx) loopBack(fr *Frame, li *loopInfo, st *State, from *ssa.BasicBlock
 				fr.env[p] = v
 			}
 		}
+	}
+	if fr.contract != nil && fr.contract.Asserts != nil {
+		// "no busy waiting": what must hold whenever the loop goes round again
+		c.pointAsserts(fr, st, fmt.Sprintf("backedge %d", li.ordinal), token.NoPos)
 	}
 	if len(invs) == 0 {
 		return
